@@ -220,10 +220,11 @@ impl ProgGen {
                 0 => Sym::Lit(self.pick_lit(rng, p.lit_mode, it)),
                 1 => {
                     let len = pick_len(rng, p.long_bias).min(room.max(2));
-                    Sym::Match {
-                        dist: pick_dist(rng, maxd, p.max_dist) as u32,
-                        len,
-                    }
+                    // now and then a NEW match that repeats a distance already held in the
+                    // rep history (no real encoder does that; it makes rep entries equal)
+                    let dup = it.reps[rng.usize_below(4)] as u64 + 1;
+                    let dist = if rng.chance(1, 12) && dup <= maxd { dup } else { pick_dist(rng, maxd, p.max_dist) };
+                    Sym::Match { dist: dist as u32, len }
                 }
                 2 => Sym::ShortRep,
                 k => Sym::Rep {
